@@ -259,6 +259,24 @@ def main():
             if reproduced:
                 replays_ok += 1
             violations.append((res, ob, rp, reproduced))
+    # differential validation: scenarios whose obligations all hold are also run natively on the real build with the inputs
+    # of their reachability witness; no assertion may fail there either
+    validated = 0
+    disagreements = []
+    if not a.no_native and not a.replay:
+        cands = [(sc, res) for sc, res in zip(scenarios, results)
+                 if res["status"] == "ok" and res.get("witness") and not any(o["verdict"] != "holds" for o in res["obligations"])]
+        lim = int(os.environ.get("VERIF_NATIVE_MAX", "6" if a.tier == "quick" else "16"))
+        for sc, res in cands[:lim]:
+            rp = os.path.join(VERIF, "replays", "tmp-%s-%s.json" % (prop, res["entry"]))
+            with open(rp, "w") as fh:
+                json.dump(dict(nondets=res["witness"]["nondets"]), fh)
+            hit, out = native_replay(sess, sc.get("harness", "root"), sc, dict(kind="assert", msg="VERIF-"), rp, runs=1, timeout=90)
+            os.remove(rp)
+            if "\nok " in out or out.startswith("ok ") or "PASS" in out:
+                validated += 1
+            elif "VERIF-FAILED" in out or "VERIF-PANIC" in out:
+                disagreements.append((res["name"], out[-400:]))
     wall = time.time() - t0
     # ---------------------------------------------------------------- evidence
     funcs = sorted({f for r in results for f in r["functions"] if "verif" not in f.rsplit(".", 1)[-1].lower() or True})
@@ -278,7 +296,8 @@ def main():
         coverage=dict(
             states=max(1, sum(r["stats"].get("macro_steps", 0) for r in results)),
             transitions=max(1, sum(r["stats"].get("candidates", 0) for r in results)),
-            traces_validated_against_impl=replays_ok,
+            traces_validated_against_impl=replays_ok + validated,
+            native_disagreements=[dict(scenario=n, tail=t) for n, t in disagreements],
             samples=samples,
             obligations=n_obl, discharged=n_dis,
             known_findings=[dict(scenario=kf["scenario"], obligation=kf["obligation"], what=kf["what"]) for kf, ob in known_hits],
@@ -315,6 +334,8 @@ def main():
         print("KNOWN-FINDING: property=%s %s [%s: %s]" % (prop, kf["what"], kf["scenario"], kf["obligation"]))
     for n, notes in inconclusive:
         print("INCONCLUSIVE: property=%s scenario=%s %s" % (prop, n, "; ".join(notes)[:400]))
+    for n, t in disagreements:
+        print("INCONCLUSIVE: property=%s scenario=%s the native run with the witness inputs fails an assertion the encoding discharged (encoding or stub suspect): %s" % (prop, n, t.replace("\n", " ")[-300:]))
     rc = 0
     for res, ob, rp, rep in violations:
         if rep is False:
